@@ -30,3 +30,43 @@ pub fn csc_gemv<T: FloatT>(A: &CscMatrix<T>, transpose: bool, y: &mut [T], x: &[
 pub fn csc_symv<T: FloatT>(A: &CscMatrix<T>, y: &mut [T], x: &[T], a: T, b: T) {
     A.sym().symv(y, x, a, b);
 }
+
+// H3 : read-only per-iteration observer.  When armed (per thread) the default
+// solver's `Info::update` records the current internal iterate.
+#[derive(Clone, Debug)]
+pub struct IterRecord {
+    pub tau: f64,
+    pub kappa: f64,
+    pub x: Vec<f64>,
+    pub s: Vec<f64>,
+    pub z: Vec<f64>,
+}
+
+thread_local! {
+    static ITER_LOG: std::cell::RefCell<Option<Vec<IterRecord>>> = const { std::cell::RefCell::new(None) };
+}
+
+/// start recording iterates on this thread (clears any previous log)
+pub fn observer_arm() {
+    ITER_LOG.with(|l| *l.borrow_mut() = Some(Vec::new()));
+}
+
+/// stop recording and return what was recorded
+pub fn observer_take() -> Vec<IterRecord> {
+    ITER_LOG.with(|l| l.borrow_mut().take().unwrap_or_default())
+}
+
+pub(crate) fn observer_push<T: FloatT>(tau: T, kappa: T, x: &[T], s: &[T], z: &[T]) {
+    ITER_LOG.with(|l| {
+        if let Some(log) = l.borrow_mut().as_mut() {
+            let f = |v: &[T]| v.iter().map(|a| a.to_f64().unwrap()).collect::<Vec<f64>>();
+            log.push(IterRecord {
+                tau: tau.to_f64().unwrap(),
+                kappa: kappa.to_f64().unwrap(),
+                x: f(x),
+                s: f(s),
+                z: f(z),
+            });
+        }
+    });
+}
